@@ -298,7 +298,7 @@ def report(ctx, part, fmt, types, bname, aflag, hbin, lab, d, line, mod, out, cr
     if any(v.key == key for v in ctx.violations):
         return
     small = d
-    if shrinkable and len(d) <= 300000:
+    if shrinkable and len(d) <= 300000 and not lab.startswith('corpus'):      # corpus inputs are minimal already
         def same(r):
             o, c = r
             s2 = crash_signature(c) if c is not None else o
@@ -846,7 +846,7 @@ def run_part(ctx):
                             inputs.append(('corpus:' + fn, d))
                             if len(w) == 3 and w[2] in ('ok', 'err'):
                                 probes[d] = (w[1], w[2])
-    nbase = 14 if quick else 120
+    nbase = 14 if quick else 80
     budget = 420 if quick else 1500
     for k in range(nbase):
         blobs = gen_file(rng)
